@@ -116,6 +116,38 @@ def blank_directives(txt):
     return "\n".join(out), events
 
 
+
+def dtls_regions(txt):
+    """[(start, end)] offsets of the text that is only compiled with USE_DTLS (#ifdef USE_DTLS / #if defined(USE_DTLS) ..,
+    up to the matching #else / #endif)"""
+    regs = []; stack = []; off = 0
+    for ln in txt.split("\n"):
+        st = ln.lstrip()
+        if st.startswith("#"):
+            m = re.match(r"#\s*(\w+)\s*(.*)", st)
+            kw, rest = (m.group(1), m.group(2)) if m else ("", "")
+            if kw in ("if", "ifdef", "ifndef"):
+                pos = kw != "ifndef" and re.search(r"\bUSE_DTLS\b", rest) is not None and not re.search(r"!\s*defined\s*\(?\s*USE_DTLS", rest)
+                stack.append([pos, off + len(ln) + 1])
+            elif kw in ("else", "elif") and stack:
+                if stack[-1][0]: regs.append((stack[-1][1], off))
+                stack[-1] = [False, off]
+            elif kw == "endif" and stack:
+                pos, a = stack.pop()
+                if pos: regs.append((a, off))
+        off += len(ln) + 1
+    return regs
+
+
+_DTLS = {}
+def in_dtls_only(rel, offset):
+    if os.path.basename(rel) == "dtls.c":
+        return True
+    if rel not in _DTLS:
+        _DTLS[rel] = dtls_regions(open(os.path.join(REPO, rel), errors="replace").read())
+    return any(a <= offset < b for a, b in _DTLS[rel])
+
+
 def match_paren(t, i, open_c="(", close_c=")"):
     """t[i] == open_c; returns index of the matching close (or len(t))"""
     d = 0
@@ -768,6 +800,7 @@ def scan(files, alloc_names, wrapper_defs=frozenset()):
                     # `if (p) { fill } return p;` : the failing path ends in `return NULL` - the caller is the one who is told
                     r["cls"] = "GuardedBeforeUse"; r["why"] = "test, then the (NULL) result is returned to the caller"
                 s = dict(r)
+                s["dtls_only"] = in_dtls_only(rel, m.start())
                 s.update(file=rel, func=fname, ord=ordn, alloc=an, line=t.count("\n", 0, m.start()) + 1,
                          key="%s:%s#%d" % (os.path.basename(rel), fname, ordn), fstart=fs, fend=fe)
                 sites.append(s)
@@ -930,6 +963,8 @@ def main():
     notg = [s["key"] for s in allsites if s["cls"] in ("Unknown",)]
     if "--wrappers" in sys.argv:
         print("allocation wrappers (functions returning freshly allocated memory): " + " ".join(sorted(wrappers)))
+    if "--dtls" in sys.argv:
+        print("DTLS-only sites (#ifdef USE_DTLS / dtls.c): " + " ".join(s_["key"] for s_ in allsites if s_.get("dtls_only")))
     print("AllocSites.v %s: %d sites (%d direct, %d via wrappers) %s%s" % (
         "updated" if changed else "unchanged", len(allsites), len(base), len(derived),
         " ".join("%s=%d" % kv for kv in sorted(hist.items())), (" Unknown: " + ",".join(notg[:8])) if notg else ""))
